@@ -334,6 +334,79 @@ def gen_mesh(rng, kind=None, max_nodes=26, id_mode=None, components=None, n_unre
     return m
 
 
+# ---------------------------------------------------------------- hub meshes
+# Magnitude dimension: vertices of high degree / node pairs shared by many
+# elements (pole of a lat-long sphere, apex of a cone, hub of a star of beams,
+# fan of tets around an edge).  Degrees and multiplicities cross the widths of
+# the narrow integer dtypes (2^7, 2^8, 2^15, 2^16).  Connectivity only: the
+# coordinates are distinct lattice points, NOT a consistent geometry.
+HUBS = ['star-line', 'cap-tri', 'fan-tet', 'cap-mixed']
+
+
+def gen_hub(rng, kind, n, id_mode=None, closed=None, n_unref=None):
+    """n elements around one hub vertex.
+    star-line: n `line` elements hub-leaf (hub degree n; elemental graph complete)
+    cap-tri:   polar cap, n triangles pole-ring (pole degree n, every pole-ring
+               pair shared by two triangles)
+    fan-tet:   n tets around the edge a-b (the pair a,b is shared by n tets)
+    cap-mixed: polar cap of triangles and quads plus `line` spokes (several
+               types, ids scattered over the types)"""
+    b = Builder()
+    closed = rng.random() < 0.7 if closed is None else closed
+
+    def P(k, row=0):
+        return b.node((2 * k, 2 * row, 0))
+    if kind == 'star-line':
+        hub = P(0, 1)
+        for k in range(n):
+            leaf = P(k, 0)
+            b.cells.append(('line', [hub, leaf] if rng.random() < 0.5 else [leaf, hub]))
+    elif kind == 'cap-tri':
+        pole = P(0, 1)
+        ring = [P(k, 0) for k in range(n if closed else n + 1)]
+        for k in range(n):
+            c = [pole, ring[k], ring[(k + 1) % len(ring)]]
+            r = rng.randrange(3)
+            b.cells.append(('tri', c[r:] + c[:r]))
+    elif kind == 'fan-tet':
+        a, a2 = P(0, 1), P(1, 1)
+        ring = [P(k, 0) for k in range(n if closed else n + 1)]
+        for k in range(n):
+            c = [a, a2, ring[k], ring[(k + 1) % len(ring)]]
+            r = rng.randrange(4)
+            b.cells.append(('tet', c[r:] + c[:r]))
+    elif kind == 'cap-mixed':
+        pole = P(0, 1)
+        k = 0
+        ring = [P(0, 0)]
+        while len(b.cells) < n:
+            t = rng.choice(['tri', 'tri', 'quad', 'line'])
+            if t == 'line':
+                b.cells.append(('line', [pole, ring[-1]]))
+            elif t == 'tri':
+                k += 1
+                ring.append(P(k, 0))
+                b.cells.append(('tri', [pole, ring[-2], ring[-1]]))
+            else:
+                k += 2
+                ring += [P(k - 1, 0), P(k, 0)]
+                b.cells.append(('quad', [pole, ring[-3], ring[-2], ring[-1]]))
+    else:
+        raise AssertionError(kind)
+    id_mode = id_mode or rng.choice(['seq', 'dense-offset', 'sparse', 'large'])
+    node_order = rng.choice(ORDERS)
+    elem_order = rng.choice(ORDERS)
+    if n_unref is None:
+        n_unref = rng.choice([0, 0, 1])
+    m = label(b, rng, id_mode, n_unref=n_unref, block_order=rng.choice(['first-seen', 'shuffled']),
+              node_order=node_order, elem_order=elem_order,
+              unref_at=rng.choice(['first', 'middle', 'last']))
+    m['tags'] = {'kind': 'hub-' + kind, 'ids': id_mode, 'components': 1, 'unref': n_unref,
+                 'node_order': node_order, 'elem_order': elem_order, 'n_types': len(m['blocks']),
+                 'hub_elements': n}
+    return m
+
+
 def mesh_to_coq(m, lib):
     nodes = lib.coq_list([lib.coq_Z(r[0]) for r in m['nodes']])
     blocks = lib.coq_list([
